@@ -152,3 +152,67 @@ func HarnessFailAtomic() {
 	vCover(class == 1, "never-healthy class reachable")
 	vCover(class == 5, "late conflict class reachable")
 }
+
+// HarnessFailKeepsProbing: the pre-state is built through the real commands, so every installed target has its
+// health-check loop running; then a command fails late (after its new targets were created): the targets the proxy
+// keeps must still be probed afterwards, the rejected ones no more.
+func HarnessFailKeepsProbing() {
+	vT2(vParam("preemptions", 0), vParam("firings", 40))
+	vSortMode = 0
+	vSnapshotReal = true
+	vMapOrderFixed(true)
+	router := NewRouter("/state")
+	topts := TargetOptions{HealthCheckConfig: HealthCheckConfig{Path: "/up", Interval: 1000, Timeout: 500}}
+	for _, n := range []string{"a0:80", "r0:80", "b0:80", "n0:80"} {
+		vProbeScripts[n] = vHealthyScript()
+	}
+	vProbeScripts["bad:80"] = &vProbeScript{outcomes: []vProbeOutcome{{kind: vProbeStatus, status: 500, latency: 0}}}
+	vAssert(router.DeployService("svc", []string{"a0:80"}, ServiceOptions{Hosts: []string{"h"}}, topts, 5000, 100) == nil, "keeps: deploy svc")
+	withRollout := vChoose("with_rollout", 2) == 1
+	if withRollout {
+		vAssert(router.SetRolloutTargets("svc", []string{"r0:80"}, 5000, 100) == nil, "keeps: rollout deploy")
+	}
+	vAssert(router.DeployService("other", []string{"b0:80"}, ServiceOptions{Hosts: []string{"g"}}, topts, 5000, 100) == nil, "keeps: deploy other")
+	kept := []string{"a0:80", "b0:80"}
+	if withRollout {
+		kept = append(kept, "r0:80")
+	}
+	var err error
+	rejected := []string{}
+	switch vChoose("failing_command", 4) {
+	case 0: // redeploy of svc onto a host owned by another service (detected late)
+		err = router.DeployService("svc", []string{"n0:80"}, ServiceOptions{Hosts: []string{"g"}}, topts, 5000, 100)
+		rejected = []string{"n0:80"}
+	case 1: // redeploy of svc with a target that never becomes healthy
+		err = router.DeployService("svc", []string{"n0:80", "bad:80"}, ServiceOptions{Hosts: []string{"h"}}, topts, 1500, 100)
+		rejected = []string{"n0:80", "bad:80"}
+	case 2: // rollout deploy that never becomes healthy
+		err = router.SetRolloutTargets("svc", []string{"bad:80"}, 1500, 100)
+		rejected = []string{"bad:80"}
+	case 3: // a new service claiming an owned host
+		err = router.DeployService("third", []string{"n0:80"}, ServiceOptions{Hosts: []string{"h"}}, topts, 5000, 100)
+		rejected = []string{"n0:80"}
+	}
+	vAssert(err != nil, "keeps: the command reports its error")
+	vEmit(vEvent{kind: "cmd_return", ok: false})
+	retIdx := len(vTrace) - 1
+	vSleep(2500)
+	vNote(vTraceString())
+	for _, n := range kept {
+		probed := false
+		for k := retIdx + 1; k < len(vTrace); k++ {
+			if vTrace[k].kind == "probe_begin" && vTrace[k].target == n {
+				probed = true
+			}
+		}
+		vAssert(probed, "keeps: the targets the proxy kept are still probed after a failed command")
+	}
+	for k := retIdx + 1; k < len(vTrace); k++ {
+		if vTrace[k].kind == "probe_begin" {
+			for _, n := range rejected {
+				vAssert(vTrace[k].target != n, "keeps: the proxy stops probing the targets it rejected")
+			}
+		}
+	}
+	vCover(withRollout, "service with rollout targets reachable")
+}
